@@ -22,7 +22,7 @@ import numpy as np
 PROP = "C18"
 LEVEL = "exploration"
 VARIANTS = ("omp",)
-CASE_TIMEOUT = 900
+CASE_TIMEOUT = 1200
 RULE = ("kind workflow: crystal x primitive axes x NAC: `phonopy -d` (displaced supercells vs library), `phonopy -f` on synthesised vasprun.xml (FORCE_SETS vs model forces), "
         "`phonopy-load` / `phonopy` run modes mesh, thermal properties, DOS, PDOS, band, q-points, --writefc/--readfc, --nac, each output file vs library results; option route vs "
         "configuration-file route byte-identical outputs; final phonopy.yaml reloaded; "
